@@ -654,7 +654,61 @@ func (c *Ctx) checkAPIReturnsErr(r *Report, rule string, f *ssa.Function) {
 		}
 	})
 	if sel == nil {
-		r.undecided(rule, key, c.pos(f.Pos()), "no blocking select in the API method")
+		// the wait moved into a helper: `return c.waitFor(transaction)` - the helper is checked the same way and the
+		// API method must return what the helper returns
+		var helper *ssa.Function
+		var hcall *ssa.Call
+		allInstrs(f, func(i ssa.Instruction) {
+			call, ok := i.(*ssa.Call)
+			if !ok {
+				return
+			}
+			g := staticCallee(&call.Call)
+			if g == nil || fnPkgPath(g) != fnPkgPath(f) || g.Blocks == nil {
+				return
+			}
+			has := false
+			allInstrs(g, func(j ssa.Instruction) {
+				if s2, ok := j.(*ssa.Select); ok && s2.Blocking {
+					has = true
+				}
+			})
+			if has {
+				helper, hcall = g, call
+			}
+		})
+		if helper == nil {
+			r.undecided(rule, key, c.pos(f.Pos()), "no blocking select in the API method")
+			return
+		}
+		okF, nF := true, 0
+		for _, b := range f.Blocks {
+			ret, ok := b.Instrs[len(b.Instrs)-1].(*ssa.Return)
+			if !ok {
+				continue
+			}
+			if reach, _ := pathExists(f, hcall, func(x ssa.Instruction) bool { return x == ssa.Instruction(ret) }, nil); !reach {
+				continue
+			}
+			nF++
+			for _, res := range ret.Results {
+				for _, o := range c.origins(res) {
+					if !(o.Kind == "call" && o.Val == ssa.Value(hcall)) {
+						okF = false
+					}
+				}
+			}
+		}
+		sub := newReport(r.Prop)
+		c.checkAPIReturnsErr(sub, rule, helper)
+		okH := len(sub.Obls) > 0
+		for _, o := range sub.Obls {
+			if o.Status != "discharged" {
+				okH = false
+			}
+		}
+		r.fn(helper)
+		r.cond(okF && nF > 0 && okH, rule, key, c.instrPos(hcall), "the API returns the result of "+helper.Name()+", which returns transaction.Err() after Done and group.Wait() after cancellation", "the API method can return something else than the transaction's Err() once it completed (wait in helper "+helper.Name()+")")
 		return
 	}
 	okc := true
